@@ -75,7 +75,7 @@ pub fn execute(duts: &mut Duts, c: &J) -> J {
     else {
         rec::set_susp(vec![]);
     }
-    let d = duts.get(iface);
+    let d = duts.get(if c["kind"] == "queue" { "main" } else { iface });
     match c["kind"].as_str().unwrap_or("") {
         "run" => {
             if !c.get("keep").and_then(|k| k.as_bool()).unwrap_or(false) {
@@ -182,6 +182,59 @@ pub fn execute(duts: &mut Duts, c: &J) -> J {
                 fs.push(J::Array(d.process(n, mk(Some(i)))));
             }
             json!({"ref": reference, "f": fs})
+        }
+        "queue" => {
+            // the ErrorQueue trait methods called directly on StaticErrorQueue<K> (C09)
+            use microscpi::{Error, ErrorQueue, StaticErrorQueue};
+            fn error_of(n: i64, custom: bool) -> Error {
+                if custom {
+                    return Error::Custom(n as i16, "custom");
+                }
+                match n {
+                    -113 => Error::UndefinedHeader,
+                    -104 => Error::DataTypeError,
+                    -120 => Error::NumericDataError,
+                    -224 => Error::IllegalParameterValue,
+                    -350 => Error::QueueOverflow,
+                    -101 => Error::InvalidCharacter,
+                    -115 => Error::UnexpectedNumberOfParameters,
+                    _ => Error::Custom(n as i16, "custom"),
+                }
+            }
+            fn drive<Q: ErrorQueue>(mut q: Q, ops: &[J]) -> J {
+                let mut out = Vec::new();
+                for o in ops {
+                    match o["op"].as_str().unwrap_or("") {
+                        "push" => {
+                            q.push_error(error_of(o["n"].as_i64().unwrap(), o["custom"].as_bool().unwrap_or(false)));
+                            out.push(json!({"r": "pushed"}));
+                        }
+                        "pop" => match q.pop_error() {
+                            Some(e) => {
+                                let n = e.number();
+                                let t: &str = e.into();
+                                out.push(json!({"r": "pop", "n": n, "txt": rec::bytes(t.as_bytes())}));
+                            }
+                            None => out.push(json!({"r": "none"})),
+                        },
+                        _ => out.push(json!({"r": "count", "c": q.error_count()})),
+                    }
+                }
+                J::Array(out)
+            }
+            let ops = c["ops"].as_array().cloned().unwrap_or_default();
+            let r = std::panic::catch_unwind(std::panic::AssertUnwindSafe(|| match c["K"].as_u64().unwrap_or(0) {
+                1 => drive(StaticErrorQueue::<1>::new(), &ops),
+                2 => drive(StaticErrorQueue::<2>::new(), &ops),
+                3 => drive(StaticErrorQueue::<3>::new(), &ops),
+                4 => drive(StaticErrorQueue::<4>::new(), &ops),
+                10 => drive(StaticErrorQueue::<10>::new(), &ops),
+                k => {
+                    eprintln!("harness: queue capacity {k} not instantiated");
+                    std::process::exit(2)
+                }
+            }));
+            return r.unwrap_or_else(|_| json!([{"r": "panic"}]));
         }
         "parse" => {
             let start: Vec<String> = c["start"]
